@@ -502,6 +502,26 @@ fn libsig_case(case: &Case, acc: &mut Acc, row: &KeyRow, comp: bool, msg: &[u8],
         let a = call(v.acc, || sg.recover_public_key_from_digest(&z32).and_then(|k| k.to_bytes()));
         v.expect_bytes("recover_public_key_from_digest", &format!("{}: signer's key in the recorded form", label), a, want_key);
     }
+    // ---- the malleated twin (r, n - s) with the opposite y parity is a signature of the same signer over the same message:
+    // recovery from its compact form must also return the signer's key (the reference recovery confirms it first)
+    {
+        let s_twin = secp::n() - &s;
+        let twin_recid = recid ^ 1;
+        if secp::recover(&z, &r, &s_twin, twin_recid).as_ref() == Some(&row.q) {
+            let mut tb = vec![header_of(twin_recid, marker)];
+            tb.extend_from_slice(&r32);
+            tb.extend_from_slice(&secp::be32(&s_twin));
+            v.acc.bump("high_s_twins_recovered", 1);
+            if let L::Ok(tw) = call(v.acc, || Signature::from_compact_bytes(&tb)) {
+                let a = call(v.acc, || tw.recover_public_key(msg, sh).and_then(|k| k.to_bytes()));
+                v.expect_bytes("recover_public_key", &format!("high-S twin {}: signer's key in the recorded form", hx(&tb)), a, want_key);
+                let a = call(v.acc, || tw.recover_public_key_from_digest(&z32).and_then(|k| k.to_bytes()));
+                v.expect_bytes("recover_public_key_from_digest", &format!("high-S twin {}: signer's key in the recorded form", hx(&tb)), a, want_key);
+            } else {
+                v.acc.bump("high_s_twin_not_parsed_from_compact_bytes", 1);
+            }
+        }
+    }
     // ---- the whole compact matrix on every kind of object the library hands out for this signature; where the
     // re-issued compact bytes keep the signer's recovery id, recovery must return the signer's key in the form
     // the NEW marker records (signing-key compression x recorded marker)
